@@ -3,7 +3,8 @@
  * interposition.  Checks the clauses no model can carry: the returned descriptor is connected to the
  * child's stdout (type "r") / stdin (type "w"), the child's other standard streams are /dev/null, after
  * iv_popen_request_close a child that ignores nothing is terminated and reaped (no zombie remains) and
- * iv_main returns.  Prints "OK" or "FAIL <what>"; exit status 0 / 1.
+ * iv_main returns.  No sleeps and no timing assumptions: every step waits for an event (EOF of a pipe the child
+ * holds); only the 40 s guard timer is a clock.  Prints "OK" or "FAIL <what>"; exit status 0 / 1.
  */
 #define _GNU_SOURCE
 #include <errno.h>
@@ -23,7 +24,6 @@ static struct iv_timer guard;
 static char out[4096];
 static int outlen;
 static int phase;
-static char tmpl[] = "/tmp/ivpopen_smoke_XXXXXX";
 
 static void fail(const char *what)
 {
@@ -58,7 +58,7 @@ static void got_data(void *c)
 static void run_r(void)
 {
 	static char *argv[] = { "/bin/sh", "-c",
-		"echo hello-from-child; readlink /proc/self/fd/0; readlink /proc/self/fd/2", NULL };
+		"echo hello-from-child; echo \"fd0:$(readlink /proc/$$/fd/0)\"; echo \"fd2:$(readlink /proc/$$/fd/2)\"", NULL };
 	int fd;
 
 	IV_POPEN_REQUEST_INIT(&req);
@@ -74,13 +74,43 @@ static void run_r(void)
 	iv_fd_register(&rfd);
 }
 
+/* type "w": the child reports through a second pipe it inherits (descriptor number in the command line): what it
+   read from its stdin, then where its fd 1 and fd 2 point.  The request is closed when that pipe reports EOF, i.e.
+   when the child (and everything it started) is gone -- no sleeping, no timing assumption. */
+static struct iv_fd wfd;
+static char wout[4096];
+static int woutlen;
+
+static void got_report(void *c)
+{
+	int n = read(wfd.fd, wout + woutlen, sizeof(wout) - 1 - woutlen);
+
+	(void)c;
+	if (n > 0) {
+		woutlen += n;
+		return;
+	}
+	if (n < 0 && (errno == EAGAIN || errno == EINTR))
+		return;
+	iv_fd_unregister(&wfd);
+	close(wfd.fd);
+	/* the child has ended; closing the request now must not signal anything harmful */
+	iv_popen_request_close(&req);
+	iv_timer_unregister(&guard);
+}
+
 static void run_w(void)
 {
 	static char cmd[512];
 	static char *argv[] = { "/bin/sh", "-c", cmd, NULL };
+	int rep[2];
 	int fd;
 
-	snprintf(cmd, sizeof(cmd), "cat > %s; L=$(readlink /proc/$$/fd/1); echo $L >> %s; true", tmpl, tmpl);
+	if (pipe(rep) < 0)
+		fail("pipe");
+	snprintf(cmd, sizeof(cmd),
+		 "D=$(cat); echo \"got:$D\" >&%d; echo \"fd1:$(readlink /proc/$$/fd/1)\" >&%d; "
+		 "echo \"fd2:$(readlink /proc/$$/fd/2)\" >&%d", rep[1], rep[1], rep[1]);
 	IV_POPEN_REQUEST_INIT(&req);
 	req.file = "/bin/sh";
 	req.argv = argv;
@@ -88,13 +118,14 @@ static void run_w(void)
 	fd = iv_popen_request_submit(&req);
 	if (fd < 0)
 		fail("submit w");
+	close(rep[1]);
 	if (write(fd, "to-child\n", 9) != 9)
 		fail("write to child");
-	close(fd);
-	/* the child ends on EOF; closing the request afterwards must not signal anything harmful */
-	usleep(200000);
-	iv_popen_request_close(&req);
-	iv_timer_unregister(&guard);
+	close(fd);		/* the child's cat sees EOF */
+	IV_FD_INIT(&wfd);
+	wfd.fd = rep[0];
+	wfd.handler_in = got_report;
+	iv_fd_register(&wfd);
 }
 
 static void arm_guard(void)
@@ -109,10 +140,6 @@ static void arm_guard(void)
 
 int main(void)
 {
-	int fd;
-	char buf[256];
-	int n;
-
 	iv_init();
 
 	phase = 1;
@@ -122,30 +149,26 @@ int main(void)
 	out[outlen] = 0;
 	if (strstr(out, "hello-from-child") == NULL)
 		fail("type r: child's stdout is not connected to the descriptor");
-	if (strstr(out, "/dev/null\n/dev/null") == NULL)
-		fail("type r: stdin/stderr of the child are not /dev/null");
+	if (strstr(out, "fd0:/dev/null\n") == NULL)
+		fail("type r: stdin of the child is not /dev/null");
+	if (strstr(out, "fd2:/dev/null\n") == NULL)
+		fail("type r: stderr of the child is not /dev/null");
 	if (waitpid(-1, NULL, WNOHANG) != -1 || errno != ECHILD)
 		fail("type r: a child is left unreaped (zombie)");
 
 	phase = 2;
-	fd = mkstemp(tmpl);
-	if (fd < 0)
-		fail("mkstemp");
-	close(fd);
 	arm_guard();
 	run_w();
 	iv_main();
 	if (waitpid(-1, NULL, WNOHANG) != -1 || errno != ECHILD)
 		fail("type w: a child is left unreaped (zombie)");
-	fd = open(tmpl, O_RDONLY);
-	n = read(fd, buf, sizeof(buf) - 1);
-	close(fd);
-	unlink(tmpl);
-	buf[n > 0 ? n : 0] = 0;
-	if (strstr(buf, "to-child") == NULL)
+	wout[woutlen] = 0;
+	if (strstr(wout, "got:to-child") == NULL)
 		fail("type w: data written to the descriptor did not reach the child's stdin");
-	if (strstr(buf, "/dev/null") == NULL)
+	if (strstr(wout, "fd1:/dev/null\n") == NULL)
 		fail("type w: stdout of the child is not /dev/null");
+	if (strstr(wout, "fd2:/dev/null\n") == NULL)
+		fail("type w: stderr of the child is not /dev/null");
 
 	iv_deinit();
 	printf("OK\n");
